@@ -1,4 +1,5 @@
 mod cell;
+mod corpus;
 mod driver;
 mod embed;
 mod generated {
@@ -48,7 +49,14 @@ fn main() {
             let index: u64 = arg(&args, "--index").map(|s| s.parse().unwrap()).unwrap_or(0);
             let tier = tier_of(&args);
             let mut rng = rng::Rng::new(rng::mix(seed, 1));
-            let w = plan::workload(prop, tier, &mut rng, index);
+            let w = match arg(&args, "--corpus") {
+                Some(path) => {
+                    let text = std::fs::read_to_string(path).expect("corpus file");
+                    let c: corpus::CorpusProgram = serde_json::from_str(&text).expect("corpus json");
+                    corpus::workload_of(&c)
+                }
+                None => plan::workload(prop, tier, &mut rng, index),
+            };
             let rep = cell::run_cell(prop, tier, seed, w, args.iter().any(|a| a == "--keep-workload"));
             println!("REPORT {}", serde_json::to_string(&rep).unwrap());
         }
@@ -113,6 +121,11 @@ fn main() {
                     }
                     std::process::exit(2);
                 }
+            }
+        }
+        Some("corpus") => {
+            for c in corpus::extract_all() {
+                println!("{} files={:?} lines={}", c.name, c.files.keys().collect::<Vec<_>>(), c.files["main.abra"].lines().count());
             }
         }
         Some("runfile") => {
